@@ -3,6 +3,7 @@
 #![allow(dead_code)]
 mod common;
 mod e2;
+mod fault;
 mod fsmodel;
 mod proc;
 mod props_e2;
@@ -43,6 +44,7 @@ fn parts(id: &'static str, tier: Tier, seed: u64) -> Vec<Part> {
         "C01" | "C02" | "C07" | "C13" | "C18" => vec![seq_part(id, tier, seed)],
         "C06" | "C12" | "C20" => vec![seq_part(id, tier, seed), e2_part(id, tier)],
         "C03" | "C09" | "C08" => vec![e2_part(id, tier)],
+        "C14" => vec![Part { rule: props_e2::C14_RULE.to_string(), run: Box::new(|ctx, acc| props_e2::run_c14(ctx, acc)) }],
         _ => vec![],
     }
 }
@@ -70,7 +72,34 @@ fn run_prop(id: &'static str, tier: Tier, seed: u64) -> i32 {
     }
     let mut violations = Vec::new();
     let mut rules = Vec::new();
+    // regression corpus first: saved cases (earlier findings, hand-written shapes) through the same oracles
+    let corpus = ctx.verif_dir.join("replays/corpus").join(id);
+    if let Ok(rd) = std::fs::read_dir(&corpus) {
+        let mut files: Vec<_> = rd.flatten().map(|e| e.path()).filter(|p| p.extension().is_some_and(|x| x == "json")).collect();
+        files.sort();
+        for f in files {
+            let body: serde_json::Value = serde_json::from_slice(&std::fs::read(&f).expect("harness: read corpus file")).expect("harness: corpus file is not JSON");
+            let engine = body["engine"].as_str().unwrap_or("E1").to_string();
+            let case = body["case"].clone();
+            let res = guarded(|| replay_case(id, &engine, case.clone()));
+            let mut a = acc.lock().unwrap();
+            *a.counters.entry("corpus_cases".into()).or_default() += 1;
+            match res {
+                Ok(m) => a.absorb(&m, || case.clone()),
+                Err(fl) => {
+                    if ctx.known_match(&fl.sig).is_some() {
+                        *a.excluded_known.entry(fl.sig.clone()).or_default() += 1;
+                    } else {
+                        violations.push(Violation { sig: fl.sig, detail: format!("corpus case {}: {}", f.display(), fl.detail), case, engine });
+                    }
+                }
+            }
+        }
+    }
     for p in &ps {
+        if !violations.is_empty() {
+            break;
+        }
         rules.push(p.rule.clone());
         if let Some(v) = (p.run)(&ctx, &acc) {
             violations.push(v);
@@ -81,6 +110,15 @@ fn run_prop(id: &'static str, tier: Tier, seed: u64) -> i32 {
     Finish { ctx: &ctx, acc, rule: rules.join(" || "), assumptions: assumptions(id), violations, extra: Default::default() }.done()
 }
 
+fn replay_case(id: &'static str, engine: &str, case: serde_json::Value) -> R<CaseMeta> {
+    match engine {
+        "E1" => props_seq::replay_seq(id, case),
+        "E2" => props_e2::replay_e2(id, case),
+        "E2F" => props_e2::replay_c14(case),
+        other => panic!("harness: unknown engine {other} in replay"),
+    }
+}
+
 fn replay(path: &str) -> i32 {
     let body: serde_json::Value =
         serde_json::from_slice(&std::fs::read(path).expect("harness: cannot read replay file")).expect("harness: replay file is not JSON");
@@ -88,11 +126,7 @@ fn replay(path: &str) -> i32 {
     let engine = body["engine"].as_str().unwrap_or("E1").to_string();
     let case = body["case"].clone();
     let id: &'static str = IDS.iter().find(|i| **i == prop).copied().expect("harness: unknown property in replay");
-    let res = guarded(|| match engine.as_str() {
-        "E1" => props_seq::replay_seq(id, case.clone()),
-        "E2" => props_e2::replay_e2(id, case.clone()),
-        other => panic!("harness: unknown engine {other} in replay"),
-    });
+    let res = guarded(|| replay_case(id, &engine, case.clone()));
     match res {
         Ok(_) => {
             println!("REPLAY-PASS property={id} file={path}");
@@ -124,6 +158,10 @@ fn main() {
         }
         Some("worker") => {
             let code = proc::worker_main(&args[2..]);
+            std::process::exit(code);
+        }
+        Some("forkserver") => {
+            let code = proc::forkserver_main();
             std::process::exit(code);
         }
         Some("replay") => replay(args.get(2).expect("harness: usage: vcheck replay <file>")),
